@@ -40,6 +40,12 @@ def op_attach(st, o):
     h.box.v = mm.with_subs(model)
     if st.extra.pop("just_rejected", None) == o["on"]:
         st.stats.probe("reject_then_ok")
+    if o.get("poke") and len(o["poke"]) == mm.region.ndim:
+        # the caller's own Region objects leave the mesh region; the mesh must still hold what was attached
+        # (checked by the whole-heap refinement after this step)
+        for r in {id(r): r for r in regs.values()}.values():
+            sut(r.translate, list(o["poke"]), inplace=True)
+        st.stats.probe("caller_moves_attached_region")
     st.stats.oracle("H")
     return "attached"
 
